@@ -143,10 +143,11 @@ func Gen(f Focus, thorough bool) *rapid.Generator[Script] {
 					Delay:    pick(t, "cd", int64(0), 0, T/3, T, 2*T+1),
 					Hold:     pick(t, "ch", int64(0), T/2, T, T+T/d+1, 3*T),
 					Scribble: rapid.Bool().Draw(t, "scr"),
+					Append:   pick(t, "app", 0, 0, 1, 2),
 				})
 			}
 		} else if !f.ReadyOnly && rapid.Bool().Draw(t, "scr0") {
-			s.Cons = []CStep{{Scribble: true}}
+			s.Cons = []CStep{{Scribble: true, Append: pick(t, "app0", 0, 1, 3)}}
 		}
 		if f.Stop && s.Kind == KindV1Join {
 			sp := &StopPlan{Mode: pick(t, "smode", "stop", "stop", "cancel")}
